@@ -7,11 +7,11 @@ PHASE_MODULES = ("compiler", "insns", "metacommands", "metacommand_impl", "opera
 
 # one named symbol each, with the reason
 EXCEPTIONS = {
-    "label_error_emitted": "diagnostic de-duplication flag, written on an error path only",
-    "assignment_error_emitted": "diagnostic de-duplication flag, written on an error path only",
-    "reported_invalid_base8": "diagnostic de-duplication flag, written on an error path only",
-    "reported_error": "diagnostic de-duplication flag, written on an error path only",
-    "evaluated_value": "CharLiteral cache: depends on the per-run output charset only, not on position or symbols",
+    ("compiler::Compiler.compile_block", "label_error_emitted"): "diagnostic de-duplication flag inside '.repeat' (the error it guards is raised on every assembly by the first iteration)",
+    ("compiler::Compiler.compile_block", "assignment_error_emitted"): "diagnostic de-duplication flag inside '.repeat'",
+    ("types::Number.resolve", "reported_invalid_base8"): "diagnostic de-duplication flag of the 8/9 error (pinned behaviour; re-assembling one parsed tree twice is outside the CLI)",
+    ("types::AngleBracketedChar.resolve", "reported_error"): "diagnostic de-duplication flag (pinned behaviour)",
+    ("types::CharLiteral.resolve", "evaluated_value"): "CharLiteral cache: depends on the per-run output charset only, not on position or symbols",
 }
 IDEMPOTENT_FUNCS = {
     "insns::OffsetOperandStub.encode.fixup_label": "replaces a Number leaf by a Symbol that resolves identically; re-application is a no-op",
@@ -95,7 +95,7 @@ def rule_G4(ck):
         ck.unknown(f"token class hierarchy not recognised ({len(toks)} classes, {len(fields)} fields)")
     stores = census(repo)
     for q, n, recv, attr, kind in stores:
-        why = EXCEPTIONS.get(attr)
+        why = EXCEPTIONS.get((q, attr))
         idem = IDEMPOTENT_FUNCS.get(q)
         verdict = "exception: " + why if why else ("exception: " + idem if idem else ("tree field" if attr in fields else "not a tree field"))
         ck.instance(("store", q, recv, attr), {"function": q, "store": norm_text(n)[:90], "verdict": verdict}, fn=q)
